@@ -343,6 +343,53 @@ def parseFields : List (String × Con) → Ctx → Bytes → Nat → Except Err 
     parseFields rest ctx' bs pos'
 end
 
+/-! ### sizes of layouts without dynamic parts -/
+
+mutual
+/-- number of bytes read by a layout whose lengths and counts are all literals; `Tell` and `Computed` take no
+    space; `seekOk` says whether a `Seek` member is tolerated (counted as 0 bytes: used for the prefix length of
+    line records, whose last member seeks to the end of the record) -/
+def Con.sizeWith (seekOk : Bool) : Con → Option Nat
+  | .struct fs => Con.sizeFields seekOk fs
+  | .uint n => some n
+  | .flag n => some n
+  | .aint (.const v) => if v < 0 then none else some v.toNat
+  | .afloat (.const v) => if v < 0 then none else some v.toNat
+  | .pstr (.const v) => if v < 0 then none else some v.toNat
+  | .bytes (.const v) => if v < 0 then none else some v.toNat
+  | .acomplex (.const v) => if v < 0 then none else some (v.toNat / 2 + v.toNat / 2)
+  | .array (.const v) elem => if v < 0 then none else (Con.sizeWith seekOk elem).map (fun k => v.toNat * k)
+  | .factor _ sub => Con.sizeWith seekOk sub
+  | .wmeta _ sub => Con.sizeWith seekOk sub
+  | .enum _ sub => Con.sizeWith seekOk sub
+  | .ydms sub => Con.sizeWith seekOk sub
+  | .ydus sub _ => Con.sizeWith seekOk sub
+  | .tell => some 0
+  | .computed _ => some 0
+  | .seek _ => if seekOk then some 0 else none
+  | _ => none
+
+def Con.sizeFields (seekOk : Bool) : List (String × Con) → Option Nat
+  | [] => some 0
+  | (_, c) :: rest =>
+    match Con.sizeWith seekOk c, Con.sizeFields seekOk rest with
+    | some a, some b => some (a + b)
+    | _, _ => none
+end
+
+/-- exact size of a static layout (no `Seek`) -/
+def Con.staticSize (c : Con) : Option Nat := Con.sizeWith false c
+
+/-- prefix length of a line-record layout (static members; the closing `Seek` counted as 0) -/
+def Con.prefixSize (c : Con) : Option Nat := Con.sizeWith true c
+
+/-- follow a path of member names inside a parsed value -/
+def Val.getPath (v : Val) : List String → Option Val
+  | [] => some v
+  | n :: rest => match v.get? n with
+    | some w => w.getPath rest
+    | none => none
+
 /-- `record.parse(data)` of a top-level record -/
 def parseRecord (c : Con) (bs : Bytes) : Except Err Val := (parse c [] bs 0).map Prod.fst
 
